@@ -12,7 +12,7 @@ import (
 func init() {
 	register(&Prop{
 		ID:          "C08",
-		Explanation: "Decides that the authorisation predicates guard every serving path: every nil-error return of getAuthenticatedSession that is not a configured bypass re-ran Validator(session.Email) (skipped only for an empty e-mail) and provider.Authorize(session) with outcome true, and every ErrAccessDenied return first calls ClearSessionCookie; the login callback saves a session only after Validator(session.Email) && Authorize(session); the auth-only 202 writer is reached only after authOnlyAuthorize(req, session)==true for the session getAuthenticatedSession returned; authOnlyAuthorize returns true only for a nil session or after every element of a constraint list containing the three query constraints returned true; each query constraint returns true only when its parameter is absent or a membership test on the session's own field succeeded; the only Provider.Authorize implementation returns true only for an empty allowed-groups map or a membership hit of a session group; isEmailValidWithDomains accepts only through suffix tests applied to an end-anchored part of the address (the address or its last '@'-separated element) against an operand that starts at '@' or at a '.' label boundary, and the validator closure answers true only by that rule, the authenticated-emails file or the '*' rule and never for an empty address; the allow-list/htpasswd file watcher runs its reload action on every path that selected a remove/create/write event and WaitForReplacement returns only after the watch was re-added. Added during the build: accepting paths of the e-mail validator (R5); allow-list reload on every selected file event with re-armed watch (R6); IsEndpointAllowed/isHostnameAllowed accepting paths used by the allowed-email-domains constraint (R7, shared with C06.R4). Round 3: the operator's allowed_groups reach ProviderData.AllowedGroups and are replaced afterwards only by a list known to be non-empty (R8); clearing a refused session expires the ticket cookie on every path (R9).",
+		Explanation: "Decides that the authorisation predicates guard every serving path: every nil-error return of getAuthenticatedSession that is not a configured bypass re-ran Validator(session.Email) (skipped only for an empty e-mail) and provider.Authorize(session) with outcome true, and every ErrAccessDenied return first calls ClearSessionCookie; the login callback saves a session only after Validator(session.Email) && Authorize(session); the auth-only 202 writer is reached only after authOnlyAuthorize(req, session)==true for the session getAuthenticatedSession returned; authOnlyAuthorize returns true only for a nil session or after every element of a constraint list containing the three query constraints returned true; each query constraint returns true only when its parameter is absent or a membership test on the session's own field succeeded; the only Provider.Authorize implementation returns true only for an empty allowed-groups map or a membership hit of a session group; isEmailValidWithDomains accepts only through suffix tests applied to an end-anchored part of the address (the address or its last '@'-separated element) against an operand that starts at '@' or at a '.' label boundary, and the validator closure answers true only by that rule, the authenticated-emails file or the '*' rule and never for an empty address; the allow-list/htpasswd file watcher runs its reload action on every path that selected a remove/create/write event and WaitForReplacement returns only after the watch was re-added. Added during the build: accepting paths of the e-mail validator (R5); allow-list reload on every selected file event with re-armed watch (R6); IsEndpointAllowed/isHostnameAllowed accepting paths used by the allowed-email-domains constraint (R7, shared with C06.R4). Round 3: the operator's allowed_groups reach ProviderData.AllowedGroups and are replaced afterwards only by a list known to be non-empty (R8); clearing a refused session expires the ticket cookie on every path (R9). Round 4: setAllowedGroups stores every configured entry as a key, unchanged, so a configured list never yields the empty map Authorize reads as 'no restriction' (under R8); the two builders of bearer-token sessions never return a session whose e-mail was found empty without filling it, because an empty e-mail is the htpasswd exemption from the e-mail rules (R10).",
 		NotDecided:  "value semantics of the string predicates beyond their accepting-path structure (case folding, unusual local parts), IsEndpointAllowed for auth-only domain constraints (see C06.R4), UserMap contents.",
 		Run:         runC08,
 	})
@@ -25,6 +25,7 @@ func runC08(c *Ctx) {
 	r.Rule("R3-auth-only", "202 only after authOnlyAuthorize(req, session)==true; authOnlyAuthorize / checkAllowed* structure", 10)
 	r.Rule("R7-domain-constraint-helper", "IsEndpointAllowed / isHostnameAllowed accepting paths used by the auth-only allowed_email_domains constraint (shared with C06.R4)", 3)
 	r.Rule("R8-allowed-groups-preserved", "the operator's allowed_groups reach ProviderData.AllowedGroups and are replaced afterwards only by a list known to be non-empty; no other overwrite of the map", 4)
+	r.Rule("R10-bearer-email-fallback", "bearer-token session builders never hand back a session whose e-mail was found empty without filling it (an empty e-mail is the htpasswd exemption from the e-mail rules)", 2)
 	r.Rule("R9-clear-expires-cookie", "clearing a refused session expires the ticket cookie on every path, also when the store delete fails (shared with C11.R2)", 9)
 	r.Rule("R6-rules-reload", "the rule-file watcher runs the reload action for every selected event and returns from waiting only after re-arming the watch", 2)
 	r.Rule("R5-email-validator", "accepting paths of the e-mail validator: end-anchored suffix tests at '@' or '.' boundaries; validator true only by domain rule, file or '*'", 2)
@@ -33,7 +34,7 @@ func runC08(c *Ctx) {
 	// ---- R1 ---------------------------------------------------------------------------------
 	rule := "R1-every-request"
 	gas := c.Fn(rule, "(*main.OAuthProxy).getAuthenticatedSession")
-	isAllowed := c.Fn(rule, "(*main.OAuthProxy).IsAllowedRequest")
+	isAllowed := c.bypassEntry(rule)
 	validatorF := c.Field(rule, "main.OAuthProxy.Validator")
 	emailF := c.Field(rule, "pkg/apis/sessions.SessionState.Email")
 	scopeSessF := c.Field(rule, "pkg/apis/middleware.RequestScope.Session")
@@ -42,7 +43,7 @@ func runC08(c *Ctx) {
 	clear := c.Fn(rule, "(*main.OAuthProxy).ClearSessionCookie")
 	storeClear := c.Method(rule, "pkg/apis/sessions.SessionStore.Clear")
 	denied := c.P.Global("main.ErrAccessDenied")
-	if gas != nil && isAllowed != nil && validatorF != nil && emailF != nil && scopeSessF != nil && authorizeM != nil && getScope != nil && clear != nil && storeClear != nil && denied != nil {
+	if gas != nil && validatorF != nil && emailF != nil && scopeSessF != nil && authorizeM != nil && getScope != nil && clear != nil && storeClear != nil && denied != nil {
 		c.Walk(rule, gas, func(p *walk.Path) {
 			checkAuthenticatedReturn(c, rule, p, isAllowed, validatorF, emailF, scopeSessF, authorizeM, getScope)
 			// ErrAccessDenied returns clear the cookie
@@ -98,6 +99,7 @@ func runC08(c *Ctx) {
 	runC08R6(c)
 	runRedirectValidators(c, "R7-domain-constraint-helper", false)
 	runC08R8(c, "R8-allowed-groups-preserved")
+	runC08R10(c, "R10-bearer-email-fallback")
 	runManagerClearRule(c, "R9-clear-expires-cookie")
 
 	// ---- R4 ---------------------------------------------------------------------------------
@@ -435,14 +437,6 @@ func runC08R5(c *Ctx) {
 		return
 	}
 	email, domains := ievd.Params[0], ievd.Params[1]
-	isDomainElem := func(v ssa.Value) bool {
-		u, ok := v.(*ssa.UnOp)
-		if !ok {
-			return false
-		}
-		ia, ok := u.X.(*ssa.IndexAddr)
-		return ok && ia.X == domains
-	}
 	c.Walk(rule, ievd, func(p *walk.Path) {
 		rv, ok := p.ReturnDV(0)
 		if !ok {
@@ -462,18 +456,33 @@ func runC08R5(c *Ctx) {
 				continue
 			}
 			any = true
-			subj := p.Resolve(p.Op(call.Call.Args[0], a.DV))
-			op := p.Resolve(p.Op(call.Call.Args[1], a.DV))
+			// every sub-operand is resolved through inlined helper frames (the per-domain test may live in a helper
+			// that takes the address and one domain as parameters)
+			res := func(v ssa.Value, ctx walk.DV) walk.DV { return p.Resolve(p.Op(v, ctx)) }
+			subj := res(call.Call.Args[0], a.DV)
+			op := res(call.Call.Args[1], a.DV)
+			isEmail := func(x walk.DV) bool { return x.V == ssa.Value(email) }
+			isDomainDV := func(x walk.DV) bool {
+				u, ok := x.V.(*ssa.UnOp)
+				if !ok {
+					return false
+				}
+				ia, ok := u.X.(*ssa.IndexAddr)
+				return ok && res(ia.X, x).V == ssa.Value(domains)
+			}
 			// subject: the address itself or the last '@'-separated element
-			endAnchored := subj.V == email
+			endAnchored := isEmail(subj)
 			if u, ok := subj.V.(*ssa.UnOp); ok {
 				if ia, ok := u.X.(*ssa.IndexAddr); ok {
-					if sp, ok := ia.X.(*ssa.Call); ok && isStd(&sp.Call, "strings", "Split") && sp.Call.Args[0] == email {
+					spd := res(ia.X, subj)
+					if sp, ok := spd.V.(*ssa.Call); ok && isStd(&sp.Call, "strings", "Split") && isEmail(res(sp.Call.Args[0], spd)) {
 						if sep, _ := ConstString(sp.Call.Args[1]); sep == "@" {
-							if bo, ok := ia.Index.(*ssa.BinOp); ok && bo.Op == token.SUB {
+							idx := res(ia.Index, subj)
+							if bo, ok := idx.V.(*ssa.BinOp); ok && bo.Op == token.SUB {
 								if n, ok := ConstInt(bo.Y); ok && n == 1 {
-									if ln, ok := bo.X.(*ssa.Call); ok {
-										if bi, ok := ln.Call.Value.(*ssa.Builtin); ok && bi.Name() == "len" && ln.Call.Args[0] == sp {
+									lnd := res(bo.X, idx)
+									if ln, ok := lnd.V.(*ssa.Call); ok {
+										if bi, ok := ln.Call.Value.(*ssa.Builtin); ok && bi.Name() == "len" && p.Same(p.Op(ln.Call.Args[0], lnd), spd) {
 											endAnchored = true
 										}
 									}
@@ -486,19 +495,19 @@ func runC08R5(c *Ctx) {
 			// operand: "@"+domain, or domain known to start with ".", or domain[1:] with domain known to start with "*."
 			boundary := false
 			if bo, ok := op.V.(*ssa.BinOp); ok && bo.Op == token.ADD {
-				if s, _ := ConstString(bo.X); s == "@" && isDomainElem(bo.Y) && subj.V == email {
+				if s, _ := ConstString(bo.X); s == "@" && isDomainDV(res(bo.Y, op)) && isEmail(subj) {
 					boundary = true
 				}
 			}
 			base := op
 			if sl, ok := op.V.(*ssa.Slice); ok {
-				base = p.Op(sl.X, op)
+				base = res(sl.X, op)
 			}
-			dom := func(x walk.DV) bool { return isDomainElem(p.Resolve(x).V) && p.Same(x, base) }
-			if isDomainElem(op.V) && strCallAtom(p, at, "HasPrefix", true, dom, isConstStr(p, ".")) {
+			dom := func(x walk.DV) bool { return isDomainDV(p.Resolve(x)) && p.Same(x, base) }
+			if isDomainDV(op) && strCallAtom(p, at, "HasPrefix", true, dom, isConstStr(p, ".")) {
 				boundary = true
 			}
-			if sl, ok := op.V.(*ssa.Slice); ok && isDomainElem(sl.X) && sl.High == nil {
+			if sl, ok := op.V.(*ssa.Slice); ok && isDomainDV(base) && sl.High == nil {
 				if n, ok := ConstInt(sl.Low); ok && n == 1 && strCallAtom(p, at, "HasPrefix", true, dom, isConstStr(p, "*.")) {
 					boundary = true
 				}
@@ -733,6 +742,138 @@ func runC08R8(c *Ctx, rule string) {
 			c.ok(rule, key, ref.In, "initialises the map only when it is nil")
 		} else {
 			c.R.Bad(rule, key, c.pos(ref.In), "ProviderData.AllowedGroups is overwritten outside setAllowedGroups and not as a nil-map initialisation", nil, nil)
+		}
+	}
+	// (d) setAllowedGroups keeps every configured entry, verbatim: Authorize reads an EMPTY map as "no restriction",
+	// so an entry that is dropped or rewritten on the way in can turn "nobody matches" into "everybody passes"
+	{
+		key := "verbatim|" + fnKey(setAG)
+		inserted := false
+		bad := false
+		c.WalkShallow(rule, setAG, func(p *walk.Path) {
+			if _, ok := p.Exit.(*ssa.Return); !ok || bad {
+				return
+			}
+			isElem := func(dv walk.DV) bool {
+				r := p.Resolve(dv)
+				u, ok := r.V.(*ssa.UnOp)
+				if !ok || u.Op != token.MUL {
+					return false
+				}
+				ia, ok := u.X.(*ssa.IndexAddr)
+				return ok && p.Resolve(p.Op(ia.X, p.Op(ia, r))).V == ssa.Value(setAG.Params[1])
+			}
+			loads, puts := 0, 0
+			for i, st := range p.Steps {
+				switch in := st.In.(type) {
+				case *ssa.UnOp:
+					if isElem(p.DVOf(i)) {
+						loads++
+					}
+				case *ssa.MapUpdate:
+					if isElem(p.StepOp(in.Key, st)) {
+						puts++
+					}
+				}
+			}
+			if puts > 0 {
+				inserted = true
+			}
+			if loads != puts {
+				bad = true
+				c.bad(rule, key, p.Exit, sprintf("setAllowedGroups visits %d configured entr(ies) on this path but stores only %d of them verbatim: a list whose entries are all dropped or rewritten leaves an empty map, which Authorize reads as \"no group restriction\"", loads, puts), p, p.End())
+			}
+		})
+		if !bad && inserted {
+			c.R.OK(rule, key, c.P.Pos(setAG.Pos()), "every configured entry becomes a key of AllowedGroups, unchanged")
+		} else if !bad {
+			c.R.Unknown(rule, key, c.P.Pos(setAG.Pos()), "setAllowedGroups does not insert the elements of its argument one by one (idiom not recognised)")
+		}
+	}
+}
+
+// runC08R10: getAuthenticatedSession skips the e-mail Validator for a session without an e-mail — the exemption meant
+// for htpasswd users. The two builders of bearer-token sessions therefore replace an empty e-mail by the subject before
+// returning; the rule decides that this fallback is applied on every success path on which the e-mail was found empty
+// (and that the test exists). It does not decide that the subject itself is non-empty.
+func runC08R10(c *Ctx, rule string) {
+	emailName := "Email"
+	for _, name := range []string{"(*providers.OIDCProvider).CreateSessionFromToken", "pkg/apis/middleware.CreateTokenToSessionFunc$1"} {
+		fn := c.Fn(rule, name)
+		if fn == nil {
+			continue
+		}
+		key := "fallback|" + fnKey(fn)
+		n, bad := 0, false
+		c.Walk(rule, fn, func(p *walk.Path) {
+			rv, ok := p.ReturnDV(0)
+			if !ok || bad {
+				return
+			}
+			if ev, ok := p.ReturnDV(1); !ok || !DefinitelyNil(p, ev, p.End()) {
+				return
+			}
+			if DefinitelyNil(p, rv, p.End()) {
+				return
+			}
+			// the last test of an Email field against ""
+			type test struct {
+				step  int
+				empty bool
+				addr  walk.DV
+			}
+			var last *test
+			for _, a := range p.Atoms(p.End()) {
+				b, ok := a.DV.V.(*ssa.BinOp)
+				if !ok || a.IsNil || (b.Op != token.EQL && b.Op != token.NEQ) {
+					continue
+				}
+				x, y := p.Resolve(p.Op(b.X, a.DV)), p.Resolve(p.Op(b.Y, a.DV))
+				if s, isC := ConstString(x.V); isC && s == "" {
+					x, y = y, x
+				} else if s, isC := ConstString(y.V); !isC || s != "" {
+					continue
+				}
+				u, ok := x.V.(*ssa.UnOp)
+				if !ok || u.Op != token.MUL {
+					continue
+				}
+				fa, ok := u.X.(*ssa.FieldAddr)
+				if !ok || walk.FieldOf(fa.X.Type(), fa.Field).Name() != emailName {
+					continue
+				}
+				if last == nil || a.Step >= last.step {
+					last = &test{a.Step, a.Val == (b.Op == token.EQL), p.Op(fa, x)}
+				}
+			}
+			n++
+			if last == nil {
+				bad = true
+				c.bad(rule, key, p.Exit, "a bearer-token session is returned without its e-mail having been tested for emptiness: a token without the e-mail claim yields a session that skips the e-mail rules like an htpasswd user", p, p.End())
+				return
+			}
+			if !last.empty {
+				return
+			}
+			filled := false
+			for i := last.step; i < len(p.Steps); i++ {
+				st, ok := p.Steps[i].In.(*ssa.Store)
+				if !ok {
+					continue
+				}
+				if fa, ok := st.Addr.(*ssa.FieldAddr); ok && walk.FieldOf(fa.X.Type(), fa.Field).Name() == emailName && p.Same(p.StepOp(st.Addr, p.Steps[i]), last.addr) {
+					filled = true
+				}
+			}
+			if !filled {
+				bad = true
+				c.bad(rule, key, p.Exit, "the session's e-mail was found empty and is returned empty on this path: getAuthenticatedSession exempts e-mail-less sessions from the e-mail-domain / authenticated-emails rules, so such a bearer token is served whatever its claims say", p, p.End())
+			}
+		})
+		if !bad && n > 0 {
+			c.R.OK(rule, key, c.P.Pos(fn.Pos()), sprintf("%d success path(s): e-mail non-empty, or replaced after having been found empty", n))
+		} else if !bad {
+			c.R.Unknown(rule, key, c.P.Pos(fn.Pos()), "no success path found")
 		}
 	}
 }
